@@ -6,35 +6,48 @@
 // and after every commit, rollback and reopen the whole store is dumped through the public API
 // (every bucket recursively, every key/value, BucketNames at every level) and compared with the model.
 //
-// Many sequences share one store (opening costs ~0.1 s), each under its own top-level bucket names;
+// 10 sequences share one store (opening is the dominant cost), each under its own top-level bucket names;
 // the model of a store covers ALL sequences run in it, so the full dump also checks that a sequence
-// never disturbs what earlier sequences left behind. Stores run in parallel.
+// never disturbs what earlier sequences left behind. Stores run in parallel. -only <case> runs that
+// sequence alone in a fresh store and, if that is clean, again behind the earlier sequences of its store.
+//
+// Directed scenarios inside the random sequences (all ordinary, logged, fully judged API use): twin
+// siblings whose names extend one another holding the same key; delete-then-recreate of a bucket; use of
+// a handle after its bucket was deleted; read transactions while a write transaction is open; close with
+// an open transaction; and, in the first sequence of every other store, a prologue of small transactions
+// whose writes cancel out followed by one visible Put (found by the thorough tier: see prologue()).
+//
+// Violation kinds: result-mismatch, dump-mismatch, fresh-bucket-not-empty, panic, and two precisely
+// shaped ones that let the sequence continue: stale-handle-write-resurrected (E9) and
+// committed-state-misread-until-reopen (a dump after commit/rollback differs from the model, but agrees
+// again once the store is closed and reopened: the data is on disk, the open store misreads it).
 //
 // Edge semantics the model adopts from the API (poc/wallet/db/db.go, ldb/leveldb.go, db_test.go),
 // always as "rejected, no state change":
-//   E1  bucket name invalid iff empty, longer than 256 bytes or containing "_": Create*/NewBucket ->
-//       ErrInvalidBucketName; TopLevelBucket/Bucket -> nil; DeleteBucket -> nil or ErrInvalidBucketName.
-//   E2  NewBucket of an existing bucket -> ErrBucketExist. CreateTopLevelBucket of an existing bucket ->
-//       either ErrBucketExist or success returning the existing bucket with its content untouched.
-//   E3  DeleteTopLevelBucket -> ErrNotSupported (top-level buckets are permanent).
-//   E4  DeleteBucket of a missing bucket -> nil (or ErrBucketNotFound); of an existing one removes it with
-//       all keys and all nested buckets. Clear removes the bucket's own keys only, nested buckets stay.
-//   E5  Put: empty/nil value -> ErrIllegalValue, empty key -> ErrIllegalKey (both empty: either error).
-//       Get/Delete with an empty key -> (nil, nil)/nil or ErrIllegalKey. Get of a missing key -> (nil, nil).
-//       GetByPrefix(empty) -> every entry of the bucket, keys returned without any internal prefix.
-//   E6  every write method of a bucket obtained from a read transaction fails (ErrNotSupported or
-//       ErrWriteNotAllowed); a read transaction sees the last committed state, also while a write
-//       transaction is open.
-//   E7  result order of GetByPrefix/BucketNames is not judged (compared as sorted multisets).
-//   E8  a bucket handle designates a PATH (as BucketMeta does): FetchBucket(meta) and a handle kept while
-//       its bucket is deleted and re-created address whatever bucket lives at that path now.
-//   E9  operations through a handle whose bucket does not exist (deleted earlier in the same tx) have no
-//       defined result: results are not compared. What IS judged: they never change any existing bucket
-//       (dump), and a bucket created later at that path starts empty. The one precise shape "keys Put
-//       through such a handle are the content of the re-created bucket" is reported under its own kind
-//       (stale-handle-write-resurrected) and the model then follows the store, so that the rest of the
-//       sequence is still judged. NewBucket through such a handle is not generated.
-//   E10 closing the store with an open write transaction discards that transaction.
+//
+//	E1  bucket name invalid iff empty, longer than 256 bytes or containing "_": Create*/NewBucket ->
+//	    ErrInvalidBucketName; TopLevelBucket/Bucket -> nil; DeleteBucket -> nil or ErrInvalidBucketName.
+//	E2  NewBucket of an existing bucket -> ErrBucketExist. CreateTopLevelBucket of an existing bucket ->
+//	    either ErrBucketExist or success returning the existing bucket with its content untouched.
+//	E3  DeleteTopLevelBucket -> ErrNotSupported (top-level buckets are permanent).
+//	E4  DeleteBucket of a missing bucket -> nil (or ErrBucketNotFound); of an existing one removes it with
+//	    all keys and all nested buckets. Clear removes the bucket's own keys only, nested buckets stay.
+//	E5  Put: empty/nil value -> ErrIllegalValue, empty key -> ErrIllegalKey (both empty: either error).
+//	    Get/Delete with an empty key -> (nil, nil)/nil or ErrIllegalKey. Get of a missing key -> (nil, nil).
+//	    GetByPrefix(empty) -> every entry of the bucket, keys returned without any internal prefix.
+//	E6  every write method of a bucket obtained from a read transaction fails (ErrNotSupported or
+//	    ErrWriteNotAllowed); a read transaction sees the last committed state, also while a write
+//	    transaction is open.
+//	E7  result order of GetByPrefix/BucketNames is not judged (compared as sorted multisets).
+//	E8  a bucket handle designates a PATH (as BucketMeta does): FetchBucket(meta) and a handle kept while
+//	    its bucket is deleted and re-created address whatever bucket lives at that path now.
+//	E9  operations through a handle whose bucket does not exist (deleted earlier in the same tx) have no
+//	    defined result: results are not compared. What IS judged: they never change any existing bucket
+//	    (dump), and a bucket created later at that path starts empty. The one precise shape "keys Put
+//	    through such a handle are the content of the re-created bucket" is reported under its own kind
+//	    (stale-handle-write-resurrected) and the model then follows the store, so that the rest of the
+//	    sequence is still judged. NewBucket through such a handle is not generated.
+//	E10 closing the store with an open write transaction discards that transaction.
 package main
 
 import (
@@ -47,6 +60,7 @@ import (
 	"strconv"
 	"strings"
 	"sync"
+	"time"
 
 	"github.com/massnetorg/mass-core/logging"
 	"massnet.org/mass/poc/wallet/db"
@@ -56,7 +70,7 @@ import (
 
 const (
 	maxDepth = 5  // nesting depth of buckets (top level = 1)
-	perStore = 20 // sequences sharing one store
+	perStore = 10 // sequences sharing one store
 	maxSlots = 12 // bucket handles kept per transaction
 	notation = "hN/rN = bucket handles of the write/read tx, mN = saved BucketMeta; names and keys are Go-quoted, rep(s,n) = s repeated n times; v(L,0xFF) = value of L bytes with byte[i] = 0xFF+i mod 256; v(0) = empty slice, nil = nil slice; '// stale' = the handle's bucket does not exist at that moment"
 )
@@ -211,10 +225,10 @@ type seqCtx struct {
 	forceStale *handle
 	lastReopen bool
 
-	failed  bool
-	dropped bool
-	cnt     map[string]int64
-	rich    bool
+	failed                      bool
+	dropped                     bool
+	cnt                         map[string]int64
+	rich                        bool
 	commits, rollbacks, reopens int
 	depthSeen                   int
 }
@@ -695,13 +709,14 @@ func (c *seqCtx) pickHandle(s *state, hs []*handle) *handle {
 
 // ------------------------------------------------------------------ shared read operations
 
-func (c *seqCtx) doTop(v *view) {
-	name := c.pickTopName(v.s, false)
+func (c *seqCtx) doTop(v *view) { c.doTopNamed(v, c.pickTopName(v.s, false)) }
+
+func (c *seqCtx) doTopNamed(v *view, name string) *handle {
 	id := c.id()
 	c.emit("%s%d = %s.TopLevelBucket(%s)", v.pfx, id, v.txn, q(name))
 	c.count("op:TopLevelBucket")
 	b := v.r.TopLevelBucket(name)
-	c.checkHandle(v, "TopLevelBucket", b, validName(name) && v.s.top[name] != nil, []string{name}, id)
+	return c.checkHandle(v, "TopLevelBucket", b, validName(name) && v.s.top[name] != nil, []string{name}, id)
 }
 
 func (c *seqCtx) doTopNames(v *view) {
@@ -935,8 +950,8 @@ func (c *seqCtx) dumpNode(b db.Bucket, n *node, p []string) *dumpDiff {
 	return nil
 }
 
-func (c *seqCtx) dump(r reader, s *state, after, via string) bool {
-	c.cnt["dumps_compared"]++
+// dumpDiffOf compares the whole store as seen through r with s; nil = equal.
+func (c *seqCtx) dumpDiffOf(r reader, s *state) *dumpDiff {
 	var d *dumpDiff
 	names, err := r.BucketNames()
 	g := append([]string(nil), names...)
@@ -960,6 +975,12 @@ func (c *seqCtx) dump(r reader, s *state, after, via string) bool {
 		}
 		d = c.dumpNode(b, s.top[name], []string{name})
 	}
+	return d
+}
+
+func (c *seqCtx) dump(r reader, s *state, after, via string) bool {
+	c.cnt["dumps_compared"]++
+	d := c.dumpDiffOf(r, s)
 	if d == nil {
 		return true
 	}
@@ -972,8 +993,45 @@ func (c *seqCtx) dump(r reader, s *state, after, via string) bool {
 			}
 		}
 	}
-	c.fail("dump-mismatch", map[string]string{"after": after, "diff": d.kind, "scope": scope, "via": via},
-		map[string]interface{}{"bucket_path": fmt.Sprintf("%q", d.path), "difference": d.text})
+	attrs := map[string]string{"after": after, "diff": d.kind, "scope": scope, "via": via}
+	extra := map[string]interface{}{"bucket_path": fmt.Sprintf("%q", d.path), "difference": d.text}
+	kind := "dump-mismatch"
+	if c.wtx == nil && after != "in-tx" {
+		// diagnostic: is the committed state wrong on disk, or only misread by this open store?
+		if tx, ok := r.(interface{ Rollback() error }); ok {
+			tx.Rollback()
+		}
+		persists := "unknown"
+		if c.st.d.Close() == nil {
+			if d2, err := db.OpenDB("leveldb", c.st.dir); err == nil {
+				c.st.d = d2
+				if rtx, err := d2.BeginReadTx(); err == nil {
+					if again := c.dumpDiffOf(rtx, s); again == nil {
+						persists = "no"
+						if after != "reopen" && after != "reopen-abandoned-tx" {
+							kind = "committed-state-misread-until-reopen"
+						}
+					} else {
+						persists = "yes"
+						extra["difference_after_reopen"] = again.text
+					}
+					rtx.Rollback()
+				}
+			} else {
+				c.st.d = nil
+			}
+		} else {
+			c.st.d = nil
+		}
+		attrs["persists_after_close_and_reopen"] = persists
+	}
+	if kind == "committed-state-misread-until-reopen" {
+		// the reopened store agrees with the model again: report and carry on with the sequence
+		c.cnt["committed_state_misread_until_reopen"]++
+		c.violate(kind, attrs, extra)
+		return true
+	}
+	c.fail(kind, attrs, extra)
 	return false
 }
 
@@ -1104,8 +1162,9 @@ func (c *seqCtx) wview() *view {
 	return &view{mode: "write", r: c.wtx, s: c.work, hs: &c.hs, pfx: "h", txn: "tx"}
 }
 
-func (c *seqCtx) opCreateTop() {
-	name := c.pickTopName(c.work, true)
+func (c *seqCtx) opCreateTop() { c.createTopNamed(c.pickTopName(c.work, true)) }
+
+func (c *seqCtx) createTopNamed(name string) *handle {
 	id := c.id()
 	c.emit("h%d = tx.CreateTopLevelBucket(%s)", id, q(name))
 	c.count("op:CreateTopLevelBucket")
@@ -1119,17 +1178,19 @@ func (c *seqCtx) opCreateTop() {
 		}
 	case c.work.top[name] != nil:
 		if c.check("CreateTopLevelBucket", "write", cls, "ok", "exists") && cls == "ok" {
-			c.checkHandle(v, "CreateTopLevelBucket", b, true, []string{name}, id)
+			return c.checkHandle(v, "CreateTopLevelBucket", b, true, []string{name}, id)
 		}
 	default:
 		if !c.check("CreateTopLevelBucket", "write", cls, "ok") {
-			return
+			return nil
 		}
 		c.work.top[name] = newNode()
 		if h := c.checkHandle(v, "CreateTopLevelBucket", b, true, []string{name}, id); h != nil {
 			c.checkFresh(h, c.work.top[name], "CreateTopLevelBucket")
+			return h
 		}
 	}
+	return nil
 }
 
 // checkFresh: a bucket that did not exist and was just created is an empty map.
@@ -1319,8 +1380,9 @@ func (c *seqCtx) putKV(h *handle, n *node, key, val []byte, vs string) {
 	}
 }
 
-func (c *seqCtx) opDelete(h *handle, n *node) {
-	key := c.pickKey(c.work, n, h.path, false)
+func (c *seqCtx) opDelete(h *handle, n *node) { c.delKey(h, n, c.pickKey(c.work, n, h.path, false)) }
+
+func (c *seqCtx) delKey(h *handle, n *node, key []byte) {
 	c.emit("h%d.Delete(%s)", h.id, qb(key))
 	c.count("op:Delete")
 	err := h.b.Delete(key)
@@ -1442,6 +1504,9 @@ func (c *seqCtx) writeStep() {
 	if keys < 4 {
 		w[kPut] += 20
 		w[kCommit], w[kRollback] = 2, 1
+	}
+	if c.reopens >= 1 && !c.rng.Chance(1, 4) {
+		w[kAbandon] = 0
 	}
 	if !c.rich {
 		w[kRollback], w[kReadBurst], w[kAbandon] = 1, 1, 0
@@ -1648,16 +1713,74 @@ func (c *seqCtx) readTxWrite(v *view, h *handle, n *node) {
 
 // ------------------------------------------------------------------ sequence / group runners
 
+// prologue (first sequence of a fresh store, 1 in 2): the shortest history found to expose a committed
+// transaction that stays invisible until the store is reopened: one transaction creating a bucket with
+// one key, three small transactions whose writes cancel out (Put k, Delete k), each committed, dumped and
+// followed by a short pause (as between the transactions of a running wallet; lets background work of
+// the store finish), then one transaction that Puts k. All of it is ordinary, logged, fully judged API use.
+func (c *seqCtx) prologue() {
+	top := c.tops[0]
+	kc := []byte(c.pick([]string{"a", "k", "b_2_x", "\x00"}))
+	c.count("fresh_store_prologues")
+	val := func() ([]byte, string) {
+		v := mkVal(c.rng.Range(1, 12), byte(c.rng.Intn(256)))
+		return v, fmt.Sprintf("v(%d,0x%02x)", len(v), v[0])
+	}
+	for round := 0; round < 5 && !c.failed; round++ {
+		c.opBegin()
+		if c.failed {
+			return
+		}
+		var h *handle
+		if round == 0 {
+			h = c.createTopNamed(top)
+		} else {
+			h = c.doTopNamed(c.wview(), top)
+		}
+		if h == nil || c.failed {
+			return
+		}
+		n := c.work.top[top]
+		v, vs := val()
+		switch round {
+		case 0:
+			c.putKV(h, n, []byte("z"), v, vs)
+		case 4:
+			c.putKV(h, n, kc, v, vs)
+		default:
+			c.putKV(h, n, kc, v, vs)
+			if !c.failed {
+				c.delKey(h, n, kc)
+			}
+		}
+		if c.failed {
+			return
+		}
+		c.opCommit()
+		if round > 0 && round < 4 {
+			ms := 5
+			if round == 3 {
+				ms = 60
+			}
+			c.emit("(pause %d ms)", ms)
+			time.Sleep(time.Duration(ms) * time.Millisecond)
+		}
+	}
+}
+
 func (c *seqCtx) step() {
 	if c.wtx != nil {
 		c.writeStep()
 		return
 	}
-	wb, wr, wo := 70, 15, 15
+	// reopening dominates the cost (the store allocates 2 x 64 MiB buffers per open): well under one per sequence
+	wb, wr, wo := 70, 15, 8
 	if !c.rich {
-		wb, wr, wo = 90, 5, 5 // first get something committed
+		wb, wr, wo = 90, 5, 3 // first get something committed
 	} else if c.rollbacks+c.reopens == 0 {
-		wo = 40
+		wo = 25
+	} else if c.reopens >= 1 {
+		wo = 1
 	}
 	switch c.rng.Weighted(wb, wr, wo) {
 	case 0:
@@ -1674,6 +1797,8 @@ func (c *seqCtx) step() {
 }
 
 func (c *seqCtx) runSeq() {
+	// a pure function of (seed, case): position 0 is the first sequence of a store
+	fresh := c.j == 0 && c.rng.Chance(1, 2) && len(c.st.prior) == 0
 	defer func() {
 		if p := recover(); p != nil {
 			op := ""
@@ -1689,6 +1814,9 @@ func (c *seqCtx) runSeq() {
 			c.fail("panic", map[string]string{"op": op}, map[string]interface{}{"panic": fmt.Sprint(p), "stack": string(debug.Stack())})
 		}
 	}()
+	if fresh {
+		c.prologue()
+	}
 	for len(c.ops) < c.maxOps && !c.failed {
 		c.step()
 	}
@@ -1827,5 +1955,5 @@ func main() {
 			run.Inconclusive("no commit, rollback or reopen was exercised")
 		}
 	}
-	run.Finish("case = one seeded operation sequence (quick 60, thorough 120 operations) over nested buckets of the real leveldb store with adversarial names/keys, 20 sequences per store under own top-level names; distinct by hash of the operation list; non-trivial = at least one commit with >= 2 buckets and >= 3 keys of the sequence alive, and at least one rollback or reopen", run.N(150, 10000))
+	run.Finish("case = one seeded operation sequence (quick 60, thorough 120 operations) over nested buckets of the real leveldb store with adversarial names/keys, 10 sequences per store under own top-level names; distinct by hash of the operation list; non-trivial = at least one commit with >= 2 buckets and >= 3 keys of the sequence alive, and at least one rollback or reopen", run.N(150, 10000))
 }
